@@ -45,6 +45,20 @@ def obligation(prop, name, ensures=None, fns=(), mode="R", tier="quick", note=""
     return deco
 
 
+def share(from_prop, name, to_prop):
+    """register harness `name` of `from_prop` under `to_prop` as well (same contract, same obligations): a property whose
+    contracts rely on a callee contract discharged for another property re-checks that callee contract in its own run"""
+    import copy
+    h = next(x for x in REGISTRY[from_prop] if x.name == name)
+    if any(x.name == name for x in REGISTRY.get(to_prop, [])):
+        return
+    h2 = copy.copy(h)
+    h2.prop = to_prop
+    h2.opts = dict(h.opts)
+    h2.note = f"[shared with {from_prop}] " + h.note
+    REGISTRY.setdefault(to_prop, []).append(h2)
+
+
 # ----------------------------------------------------------------------------------------------
 class _Rec:
     """attribute bag used as `self` of methods under contract (reads/writes are logged: frames)."""
